@@ -11,7 +11,9 @@ PREDICATES = {
     "C06": ["C06_Increasing", "C06_StepInRange", "C06_RampMonotone", "C06_Supplied"],
     "C07": ["C07_NoDrift", "C07_FftExact", "C07_FftBlock"],
     "C09": ["C09_NoHeap"],
-    "C12": ["C12_RatioDomain", "C12_RejectNoop", "C12_ChunkDomain", "C12_ChunkEffect"],
+    # "...then behaves as set_resample_ratio(original*x)": the spacing of the evaluation instants after an
+    # accepted change is the one the contract state (tgt := original*x) predicts
+    "C12": ["C12_RatioDomain", "C12_RejectNoop", "C12_ChunkDomain", "C12_ChunkEffect", "C06_StepInRange"],
     "C13": ["C13_ErrVariant", "C13_Untouched", "C13_Ctor"],
     "C14": ["C14_Delay", "C14_Peak"],
 }
@@ -150,6 +152,94 @@ def gen_scripts(prop, tier, rng):
     return S
 
 
+def noop_twin_scripts(prop, tier, rng):
+    """C12/C13: an instance that also receives rejected calls vs a twin that never saw them
+    (TraceTwin.TwinFull: identical results, counts, getters and bit-identical outputs)."""
+    S = []
+    n = {"quick": 8, "thorough": 100}[tier]
+    for _ in range(n):
+        for kind in gen.KINDS:
+            h = gen.valid_history(rng, kind, rng.randrange(6, 20), small=rng.random() < 0.4,
+                                  allow=("ratio", "ramp", "chunk", "reset"))
+            b = h[0]
+            if kind in ("FastFixedIn", "SincFixedIn"):
+                b["maxrel"] = {"p": 11, "q": 10}
+            if b.get("F") == 1:
+                b["F"] = 2
+            b["signal"] = "noise"
+            b.pop("probe", None)
+            ops = [dict(b, id=0), dict(b, id=1), {"op": "note", "twin": "full", "a": 0, "b": 1}]
+            for o in h[1:]:
+                if rng.random() < 0.5:
+                    if prop == "C12":
+                        if rng.random() < 0.6:
+                            ops.append({"op": "set_ratio", "id": 0, "rel": rng.random() < 0.5, "ramp": rng.random() < 0.5,
+                                        "x": {"cls": rng.choice(["above", "below", "nan", "inf", "ninf", "zero", "neg",
+                                                                 "hi_succ", "lo_pred", "sub"])}})
+                        else:
+                            ops.append({"op": "set_chunk", "id": 0, "n": rng.choice([0, -1, b["chunk"] + 1, 10 ** 6])})
+                    else:
+                        bad = {"op": "bad", "id": 0, "via": rng.choice(["into", "slices", "vec_into", "alloc"])}
+                        # only shapes that are malformed whatever the current sizes are: a buffer cannot be
+                        # "too short" when 0 frames are due, and such a call would be an extra valid call
+                        always = [x for x in gen.BAD_SHAPES if not ("short_in" in x or "short_out" in x)]
+                        if kind in ("FastFixedIn", "SincFixedIn", "FftFixedIn", "FftFixedInOut"):
+                            always += [{"short_in": [0, 1]}, {"short_in": [0, -1]}]
+                        if kind in ("FastFixedOut", "SincFixedOut", "FftFixedOut", "FftFixedInOut"):
+                            always += [{"short_out": [0, 1]}, {"short_out": [0, -1]}]
+                        sh = dict(rng.choice(always))
+                        for k in ("short_in", "short_out"):
+                            if k in sh:
+                                sh[k] = [rng.randrange(b["ch"]), sh[k][1]]
+                        if bad["via"] == "alloc":
+                            sh.pop("short_out", None)
+                            sh.pop("out_ch", None)
+                            if not sh:
+                                sh = {"in_ch": 1}
+                        bad.update(sh)
+                        ops.append(bad)
+                ops.append(dict(o, id=0))
+                ops.append(dict(o, id=1))
+            S.append(ops)
+    return S
+
+
+def rel_abs_twin_scripts(tier, rng):
+    """C12: set_resample_ratio_relative(x) behaves as set_resample_ratio(original*x): instance A is
+    driven with relative values, twin B with the absolute ones (TwinCtl: results, counts, getters)."""
+    from fractions import Fraction
+    S = []
+    n = {"quick": 10, "thorough": 120}[tier]
+    for _ in range(n):
+        for kind in gen.ASYNC:
+            b = gen.new_op(rng, kind, small=rng.random() < 0.3)
+            # dyadic values only: original*x is then the same double whoever computes it
+            b["r"] = gen.rj(rng.choice([Fraction(1), Fraction(2), Fraction(1, 2), Fraction(4), Fraction(1, 4),
+                                        Fraction(3, 2), Fraction(3, 4), Fraction(5, 4)]))
+            orig = gen.frac_of(b["r"])
+            maxrel = gen.frac_of(b["maxrel"])
+            if kind in ("FastFixedIn", "SincFixedIn") and maxrel > 2:
+                b["maxrel"] = {"p": 2, "q": 1}
+                maxrel = Fraction(2)
+            if b.get("F") == 1:
+                b["F"] = 2
+            b["signal"] = "noise"
+            b.pop("probe", None)
+            rels = [x for x in gen.in_range_rels(maxrel) if x.denominator & (x.denominator - 1) == 0]
+            b["chunk"] = min(b["chunk"], 256)
+            ops = [dict(b, id=0), dict(b, id=1), {"op": "note", "twin": "ctl", "a": 0, "b": 1}]
+            for _k in range(rng.randrange(6, 16)):
+                if rng.random() < 0.5:
+                    x = rng.choice(rels)
+                    ramp = rng.random() < 0.4
+                    ops.append({"op": "set_ratio", "id": 0, "x": gen.rj(x), "ramp": ramp, "rel": True})
+                    ops.append({"op": "set_ratio", "id": 1, "x": gen.rj(orig * x), "ramp": ramp, "rel": False})
+                else:
+                    ops += [{"op": "process", "id": 0}, {"op": "process", "id": 1}]
+            S.append(ops)
+    return S
+
+
 def adapt_model_script(prop, ops, rng):
     """Property-specific decoration of a TLC-generated script (same calls, other observers)."""
     ops = [dict(o) for o in ops]
@@ -181,6 +271,8 @@ def check(prop, tier, seed, replay=None):
 
     if replay:
         ok, out = run.replay_hard(replay, preds, wd)
+        if ok and any('"twin"' in l for l in open(replay)):
+            ok, out = run.replay_hard(replay, ["TwinFull", "TwinCtl"], wd, module="TraceTwin")
         print(out[-3000:] if not ok else "replay: all predicates hold on " + replay)
         return 0 if ok else 1
 
@@ -209,6 +301,24 @@ def check(prop, tier, seed, replay=None):
             ops, exp = conv(h)
             model_scripts.append(("m-%s-%05d" % (tag, k), adapt_model_script(prop, ops, rng), exp, q))
     cov["scripts"]["model_behaviours"] = len(model_scripts)
+
+    # ---- 1b. refinement: the as-is models implement the generative contract (Abstract.tla)
+    if prop in ("C04", "C07"):
+        for module, tag, params, conv, q in model_configs(prop, tier):
+            rmod = "AsyncRefines" if module == "AsyncPos" else "FftRefines"
+            p2 = dict(params)
+            p2["invariants"] = ["A_Advertised"] + (["A_DriftBound"] if module == "AsyncPos" else [])
+            txt = cfg_text(module, p2, False) + "PROPERTY Refines\n"
+            res = model.check_model(rmod, txt, wd, "%s-%s-refines" % (prop, tag),
+                                    workers=8 if tier == "quick" else 14, timeout=3000)
+            if not res["ok"]:
+                raise run.ToolError("refinement %s/%s fails on its own: %s" % (rmod, tag, res["error"]))
+            cov["states"] += res["distinct"]
+            cov["transitions"] += res["generated"]
+            cov["model_runs"].append({"module": rmod, "config": tag, "distinct": res["distinct"],
+                                      "generated": res["generated"], "ok": True,
+                                      "property": "Refines (model implements Abstract.tla)",
+                                      "invariants": p2["invariants"]})
 
     # ---- 2. seeded scripts at realistic sizes, witnesses of repaired / known defects
     g = gen_scripts(prop, tier, rng)
@@ -250,6 +360,13 @@ def check(prop, tier, seed, replay=None):
     cov["transitions"] += res["transitions"]
     cov["traces_validated_against_impl"] = res["traces"]
     cov["events_validated"] = res["events"]
+    cov["predicate_antecedents"] = res.get("counts", {})
+    need = {"C03": ["procOk"], "C04": ["procOk"], "C06": ["withTaus", "ramped"], "C07": ["constRatio"],
+            "C09": ["rtSafe"], "C12": ["setOk", "setRej", "chunkOk", "chunkRej"], "C13": ["badFaulty"],
+            "C14": ["withTaus", "peak"]}[prop]
+    for k in need:
+        if res.get("counts", {}).get(k, 0) == 0:
+            raise run.ToolError("vacuous validation: no event exercised '%s' for %s" % (k, prop))
     nviol = 0
     seen_known = {}
     seen_viol = set()
@@ -269,6 +386,27 @@ def check(prop, tier, seed, replay=None):
     for kfid, cnt in sorted(seen_known.items()):
         lines.append("KNOWN-FINDING: property=%s %s (%d events) %s" % (prop, kfid, cnt, known[kfid]["site"]))
         cov["known_findings_met"].append({"id": kfid, "events": cnt})
+
+    # ---- 4b. C12/C13: "a rejected call changes nothing": twin that never saw the rejected calls
+    if prop in ("C12", "C13"):
+        tw = noop_twin_scripts(prop, tier, rng)
+        if prop == "C12":
+            tw += rel_abs_twin_scripts(tier, rng)
+        tpairs = run.run_scripts([("t-%05d" % k, o) for k, o in enumerate(tw)], wd, prefix="t")
+        tres = run.validate_traces(tpairs, ["TwinFull", "TwinCtl"], wd, module="TraceTwin", tag=prop + "t")
+        run.pair_stats(tres, cov, prop)
+        cov["states"] += tres["states"]
+        cov["transitions"] += tres["transitions"]
+        cov["traces_validated_against_impl"] += tres["traces"]
+        cov["scripts"]["noop_twins"] = len(tw)
+        tseen = set()
+        for kind, name, script, line, ev, kfid in tres["viols"]:
+            if (script, name) in tseen:
+                continue
+            tseen.add((script, name))
+            nviol += 1
+            keep = run.save_replay(prop, script)
+            lines.append("VIOLATION property=%s replay=%s predicate=%s line=%d" % (prop, keep, name, line))
 
     # ---- samples
     for sp, tp in (pairs[:1] + pairs[len(model_scripts):len(model_scripts) + 2]):
